@@ -703,7 +703,176 @@ fn shape_case(shapes: &[Vec<usize>], offsets: &[usize], i: usize) -> CaseResult 
     })
 }
 
+// ------------------------------------------------------------------------------------------------
+// (iii) several documents in one invocation: every record of the stream is checked on its own
+
+/// a variant of `doc`: one top-level or Resources entry dropped / one scalar replaced
+fn vary_doc(u: &mut Choices, doc: &V, sz: &Size) -> V {
+    match u.below(4) {
+        0 => gen_cfn_doc(u, sz),
+        1 => {
+            // drop one top-level key
+            if let V::Map(m) = doc {
+                let mut m = m.clone();
+                if m.len() > 1 {
+                    let i = u.below(m.len());
+                    if m[i].0 != "Resources" {
+                        m.remove(i);
+                    }
+                }
+                V::Map(m)
+            } else {
+                doc.clone()
+            }
+        }
+        _ => {
+            // replace the values of some top-level keys by those of a fresh document
+            let other = gen_cfn_doc(u, sz);
+            if let (V::Map(m), V::Map(o)) = (doc, &other) {
+                let mut m = m.clone();
+                for (k, v) in m.iter_mut() {
+                    if u.chance(1, 2) {
+                        if let Some((_, nv)) = o.iter().find(|(ok, _)| ok == k) {
+                            *v = nv.clone();
+                        }
+                    }
+                }
+                V::Map(m)
+            } else {
+                other
+            }
+        }
+    }
+}
+
+fn records_of_stream(out: &str) -> Result<Vec<J>, String> {
+    // the records are pretty-printed, one after the other, possibly with console report lines in
+    // between: a record starts at a line "{" and ends at the next line "}"
+    let mut v = vec![];
+    let mut cur: Option<String> = None;
+    for line in out.lines() {
+        match cur.as_mut() {
+            None if line == "{" => cur = Some(String::from("{\n")),
+            None => {}
+            Some(t) => {
+                t.push_str(line);
+                t.push('\n');
+                if line == "}" {
+                    let txt = cur.take().unwrap();
+                    v.push(serde_json::from_str::<J>(&txt).map_err(|e| format!("a --print-json record is not JSON: {}", e))?);
+                }
+            }
+        }
+    }
+    if cur.is_some() {
+        return Err("the last --print-json record is not closed".into());
+    }
+    Ok(v)
+}
+
+fn check_multi(docs: &[String], rules: &str, as_dir: bool, evals: &mut u64) -> Result<(Checked, Vec<St>), Failure> {
+    let case = json!({"kind": "multi", "docs": docs, "rules": rules, "as_dir": as_dir});
+    let fail = |msg: String, sig: &str| Failure { msg, sig: sig.to_string(), case: case.clone() };
+    let d = fresh_dir("c02m");
+    let rp = d.join("r.guard");
+    write_file(&rp, rules);
+    let mut paths = vec![];
+    for (i, t) in docs.iter().enumerate() {
+        let p = d.join("data").join(format!("d{}.json", i));
+        write_file(&p, t);
+        paths.push(p.to_string_lossy().to_string());
+    }
+    let data_args = if as_dir { vec![d.join("data").to_string_lossy().to_string()] } else { paths.clone() };
+    let mut o = VOpts::plain(Fmt::Single, vec![Show::None]);
+    o.print_json = true;
+    *evals += 1;
+    let r = validate_files(&[rp.to_string_lossy().to_string()], &data_args, &[], &o, "");
+    if let Some(p) = &r.panic {
+        return Err(fail(format!("panic {}", p), &format!("panic:{}", p.split(' ').next().unwrap_or(""))));
+    }
+    let code = match &r.code {
+        Ok(c) => *c,
+        // an evaluation error in any document aborts the invocation: nothing to check
+        Err(_) => return Ok((Checked { composites: 0, mixed: 0 }, vec![])),
+    };
+    let recs = records_of_stream(&r.out).map_err(|e| fail(e, "c02:multi:stream"))?;
+    if recs.len() != docs.len() {
+        return Err(fail(format!("{} documents were given but the output holds {} records", docs.len(), recs.len()), "c02:multi:stream"));
+    }
+    let hints = hints_from_parse_tree(rules);
+    let mut acc = Checked { composites: 0, mixed: 0 };
+    let mut files = vec![];
+    for (i, rec) in recs.iter().enumerate() {
+        let chk = check_record(rec, hints.as_ref()).map_err(|e| fail(format!("record #{} of the invocation: {}", i, e), "c02:multi:record-inconsistent"))?;
+        acc.composites += chk.composites;
+        acc.mixed += chk.mixed;
+        let name = rec["container"]["FileCheck"]["name"].as_str().unwrap_or("");
+        let k = paths.iter().position(|p| p == name || p.ends_with(name)).ok_or_else(|| fail(format!("record #{} names an unknown data file {:?}", i, name), "c02:multi:stream"))?;
+        let (_, fs) = record_verdict(rec).ok_or_else(|| fail(format!("record #{} has no FileCheck root", i), "c02:multi:stream"))?;
+        // the same document on its own: the record must explain the same statuses
+        *evals += 1;
+        if let (Verdict::Ok { rules: rs1, file: f1 }, _) = verdict(&docs[k], rules) {
+            let (rsn, _) = record_verdict(rec).unwrap();
+            let a: Vec<(String, St)> = rsn.iter().map(|(n, s)| (strip_file_prefix(n), *s)).collect();
+            let b: Vec<(String, St)> = rs1.iter().map(|(n, s)| (strip_file_prefix(n), *s)).collect();
+            if f1 != fs || a != b {
+                return Err(fail(
+                    format!("document #{} evaluated together with {} others: file={} rules={:?}; evaluated on its own: file={} rules={:?}", k, docs.len() - 1, fs.text(), a, f1.text(), b),
+                    "c02:multi:differs-from-single",
+                ));
+            }
+        }
+        files.push(fs);
+    }
+    let want = if files.iter().any(|s| *s == St::Fail) { 19 } else { 0 };
+    if code != want {
+        return Err(fail(format!("record roots are {:?} but validate exits {}", files.iter().map(|s| s.text()).collect::<Vec<_>>(), code), "c02:multi:root-status"));
+    }
+    Ok((acc, files))
+}
+
+fn multi_case(u: &mut Choices, sz: Size) -> CaseResult {
+    let doc = gen_cfn_doc(u, &sz);
+    let file = gen_wide_file(u, &doc, sz, false);
+    let text = print_file(&file);
+    let n = u.range(2, 3);
+    let mut docs = vec![doc.to_json()];
+    for _ in 1..n {
+        docs.push(vary_doc(u, &doc, &sz).to_json());
+    }
+    // the generating document is not always the first one
+    let rot = u.below(n);
+    docs.rotate_left(rot);
+    let as_dir = u.chance(1, 3);
+    let mut evals = 0;
+    match check_multi(&docs, &text, as_dir, &mut evals) {
+        Ok((chk, files)) => {
+            let mut classes = vec![format!("documents:{}", docs.len()), format!("as-directory:{}", as_dir)];
+            let distinct: std::collections::BTreeSet<&str> = files.iter().map(|s| s.text()).collect();
+            classes.push(format!("distinct-file-statuses:{}", distinct.len()));
+            let has_ref = file.rules.iter().any(|r| format!("{:?}", r).contains("Ref {"));
+            classes.push(format!("has-rule-reference:{}", has_ref));
+            CaseResult::Pass(Info {
+                nontrivial: distinct.len() > 1 || (chk.mixed > 0 && !files.is_empty()),
+                key: hash_case(&[&docs.join("\n"), &text]),
+                classes,
+                evals,
+                sample: Some(json!({"docs": docs, "rules": text, "composites_checked": chk.composites})),
+            })
+        }
+        Err(f) => CaseResult::Fail(f),
+    }
+}
+
 pub fn replay(case: &J) -> CaseResult {
+    if case["kind"] == "multi" {
+        let docs: Vec<String> = case["docs"].as_array().map(|a| a.iter().filter_map(|x| x.as_str().map(String::from)).collect()).unwrap_or_default();
+        let mut evals = 0;
+        return match check_multi(&docs, case["rules"].as_str().unwrap_or(""), case["as_dir"].as_bool().unwrap_or(false), &mut evals) {
+            Ok(_) => CaseResult::Pass(Info::default()),
+            Err(f) => CaseResult::Fail(f),
+        };
+    }
     let doc = case["doc"].as_str().unwrap_or("");
     let rules = case["rules"].as_str().unwrap_or("");
     if case["kind"] == "shape" {
@@ -735,7 +904,7 @@ pub fn replay(case: &J) -> CaseResult {
 
 pub fn run(tier: Tier, seed: u64) -> i32 {
     let spec = EvidenceSpec {
-        rule: "Stage 'shapes' enumerates CNF shapes (lines x alternatives per line) x call site of the combinator {rule body, rule when, when-block condition, when-block body, query-block body, type-block body, filter, default rule}; one case evaluates ALL 3^leaves assignments of forced PASS/FAIL/SKIP leaf clauses of that shape at that site and compares the rule's status with the property's combinator, and also runs the record checker on every record. Stage 'random' generates wide programs (type blocks, parameterised rules, nested when/blocks, rule references) on CloudFormation-shaped documents and recomputes every composite node of the verbose record from its children's recorded statuses (rule references against the referenced RuleCheck, negation taken from the parse tree); 1 in 8 cases also checks the root status against the non-verbose library output and the validate exit code. Non-trivial: the record contains a composite with >=2 children of unequal status (shapes: an assignment with unequal leaves); distinct by hash of the texts / (shape, site).".into(),
+        rule: "Stage 'shapes' enumerates CNF shapes (lines x alternatives per line) x call site of the combinator {rule body, rule when, when-block condition, when-block body, query-block body, type-block body, filter, default rule}; one case evaluates ALL 3^leaves assignments of forced PASS/FAIL/SKIP leaf clauses of that shape at that site and compares the rule's status with the property's combinator, and also runs the record checker on every record. Stage 'random' generates wide programs (type blocks, parameterised rules, nested when/blocks, rule references) on CloudFormation-shaped documents and recomputes every composite node of the verbose record from its children's recorded statuses (rule references against the referenced RuleCheck, negation taken from the parse tree); 1 in 8 cases also checks the root status against the non-verbose library output and the validate exit code. Stage 'multi-document' gives 2-3 documents (variants of one another) to ONE `validate --print-json` invocation (file arguments or a directory), runs the record checker on every record of the stream, requires each record to explain the same statuses as the document evaluated on its own, and the exit code to follow the record roots. Non-trivial: the record contains a composite with >=2 children of unequal status (shapes: an assignment with unequal leaves); distinct by hash of the texts / (shape, site).".into(),
         assumptions: vec![
             "leaf statuses are taken from the record itself (local consistency); leaves are judged by C01".into(),
             "negation of rule references and the body size of `some` blocks are read from the tool's own parse tree (parser, not evaluator)".into(),
@@ -754,5 +923,6 @@ pub fn run(tier: Tier, seed: u64) -> i32 {
         run.run_enum("shapes", shapes.len() * SITES.len(), |i| shape_case(&shapes, &[], i));
         let sz = tier.pick(Size::quick(), Size::thorough());
         run.run_random("random", tier.pick(60_000, 1_500_000), tier.pick(1200, 2400), |u| random_case(u, sz));
+        run.run_random("multi-document", tier.pick(12_000, 300_000), tier.pick(1600, 2800), |u| multi_case(u, sz));
     })
 }
